@@ -89,5 +89,40 @@ func init() {
 			}
 		}
 		x.DefStrings("handleConnErrorBody", body)
+		// (*Client).retry: the statements of the retry loop between `if errOuter == nil { break }` and
+		// `nRetries++`, i.e. what decides whether a failed attempt is followed by another one; and how
+		// many pooled attempts there are.
+		var guards []string
+		eff := ""
+		loopFound := false
+		if fd := x.Func("cluster", "Client", "retry"); fd != nil {
+			for _, st := range fd.Body.List {
+				if as, ok := st.(*ast.AssignStmt); ok && len(as.Lhs) == 1 && x.Src(as.Lhs[0]) == "effectiveRetries" {
+					eff = x.Src(as)
+				}
+				fs, ok := st.(*ast.ForStmt)
+				if !ok || loopFound {
+					continue
+				}
+				loopFound = true
+				in := false
+				for _, b := range fs.Body.List {
+					src := x.Src(b)
+					if src == "nRetries++" {
+						break
+					}
+					if in {
+						guards = append(guards, src)
+					}
+					if src == "if errOuter == nil { break }" {
+						in = true
+					}
+				}
+			}
+		}
+		x.Comment("cluster/client.go (*Client).retry: statements between `if errOuter == nil { break }` and `nRetries++`")
+		x.DefBool("retryLoopFound", loopFound)
+		x.DefStrings("retryGuardsBeforeResend", guards)
+		x.DefString("effectiveRetriesDef", eff)
 	})
 }
